@@ -3,6 +3,7 @@ import MesaModel.Proofs.VizLayers
 import MesaModel.Proofs.VizAltair
 import MesaModel.Proofs.VizInputs
 import MesaModel.Proofs.VizKwargs
+import MesaModel.Proofs.VizSize
 /-!
 # C20 — visualisation data shows each agent once, where it is, as portrayed
 
@@ -271,6 +272,51 @@ theorem C20_hex_marker_at_hexagon_centre (fam : Family) (hf : fam.isHex = true) 
 theorem C20_distinct_locations_distinct_positions (fam : Family) {a b : Loc}
     (h : transform fam a = transform fam b) : a = b :=
   transform_injective fam h
+
+/-! ## the default size -/
+
+/-- The size of a marker whose portrayal names none (`s_default`) is a positive finite number in every reachable
+    space that holds an agent: `(180 / max(width, height))²` on grids and continuous spaces (the extent is positive
+    there); `180²` on a network with a single node (fix V12: the layout has no extent — it was (180/0)² = inf);
+    `(180 / side)²` with the positive larger side of the centroids' bounding box on Voronoi grids with at least two
+    centroids.  (Networks with several nodes: by networkx's layout, not modelled.) -/
+theorem C20_default_size_defined {sp : Space} (h : Reachable sp) (hne : sp.placed ≠ []) :
+    (sp.fam.isOrthogonal = true ∨ sp.fam.isHex = true ∨ sp.fam.cellular = false →
+      0 < max (sp.w : Int) (sp.h : Int) ∧
+      defaultSize sp = .exact ⟨32400, (max (sp.w : Int) (sp.h : Int) * max (sp.w : Int) (sp.h : Int)).toNat⟩) ∧
+    (sp.fam = .net ∨ sp.fam = .netgrid →
+      sp.cells.length ≠ 0 ∧ (sp.cells.length = 1 → defaultSize sp = .exact ⟨32400, 1⟩) ∧
+      (2 ≤ sp.cells.length → defaultSize sp = .layout)) ∧
+    (sp.fam = .vor → 2 ≤ sp.cells.length → ∃ f, defaultSize sp = .exact f ∧ f.num = 32400 ∧ 0 < f.den) := by
+  have hw := reachable_wf h
+  refine ⟨fun hf => ?_, fun hf => ?_, fun hf hlen => ?_⟩
+  · have hpos := extent_pos h hne hf
+    refine ⟨hpos, ?_⟩
+    unfold defaultSize sizeOfExtent
+    rcases hf with hf | hf | hf <;> cases hfam : sp.fam <;> simp [hfam, Family.isOrthogonal, Family.isHex, Family.cellular] at hf <;>
+      simp only [if_pos hpos]
+  · obtain ⟨a, ha⟩ := List.exists_mem_of_ne_nil _ hne
+    obtain ⟨l, _, hl⟩ := hw.located a ha
+    have hcell : sp.fam.cellular = true := by rcases hf with hf | hf <;> rw [hf] <;> rfl
+    have hmem := hl hcell
+    have hlen : sp.cells.length ≠ 0 := by
+      intro h0
+      rw [List.length_eq_zero_iff.mp h0] at hmem
+      cases hmem
+    refine ⟨hlen, fun h1 => ?_, fun h2 => ?_⟩
+    · unfold defaultSize
+      rcases hf with hf | hf <;> simp only [hf, h1] <;> rfl
+    · unfold defaultSize
+      have h1 : sp.cells.length ≠ 1 := by omega
+      rcases hf with hf | hf <;> simp only [hf, if_neg hlen, if_neg h1]
+  · have hpos := bbox_pos hw.cellsNodup hlen
+    unfold defaultSize sizeOfExtent
+    simp only [hf, if_pos hpos]
+    refine ⟨_, rfl, rfl, ?_⟩
+    have : 0 < max (spread (sp.cells.map (·.x))) (spread (sp.cells.map (·.y))) *
+        max (spread (sp.cells.map (·.x))) (spread (sp.cells.map (·.y))) := Int.mul_pos hpos hpos
+    simp only
+    omega
 
 /-! ## plotting keyword arguments -/
 
@@ -766,6 +812,14 @@ example : ¬ bindsByKeyword [⟨"self", .posOrKw, false⟩, ⟨"kwargs", .posOrK
   subst e1; subst e2
   have := hr ⟨"kwargs", .posOrKw, false⟩ (by simp) rfl (by simp) (by simp)
   simp at this
+
+-- the default size: 180² on a one-node network (V12), (180/3)² = 32400/9 on the 2 × 3 hex grid, by the centroids'
+-- bounding box (8 × 6) on a Voronoi grid
+example : defaultSize { fam := .net, w := 1, h := 1, cells := [⟨7, 0⟩], placed := [mkAgent .net 1 ⟨7, 0⟩] } = .exact ⟨32400, 1⟩ := by
+  decide
+example : defaultSize exSpace = .exact ⟨32400, 9⟩ := by decide
+example : defaultSize { fam := .vor, w := 1, h := 1, cells := [⟨0, 0⟩, ⟨8, 3⟩, ⟨1, 6⟩], placed := [] } = .exact ⟨32400, 64⟩ := by
+  decide
 
 -- plotting keywords on the V7 space: alpha as a keyword clashes with agent 1's own alpha; linewidths does not and
 -- reaches both markers
